@@ -262,8 +262,8 @@ func runPortfolio(cfg *SolverCfg, r *Result, file string) {
 	for _, sd := range race {
 		go func(sd solverDef) {
 			to := cfg.Timeout
-			if r.Obl.Cover && to > 2*time.Second {
-				to = 2 * time.Second
+			if r.Obl.Cover && to > time.Second {
+				to = time.Second
 			}
 			st, out, secs := runSolver(ctx, sd, to, file)
 			ch <- ans{sd.name, st, out, secs}
@@ -385,4 +385,14 @@ func SortedKinds(m map[string]int) []string {
 	}
 	sort.Strings(ks)
 	return ks
+}
+
+// SplitCases returns the number of cases of the contract's `attr split` (1 if none) and, since the
+// disjunction of the cases must cover the precondition, the exhaustiveness obligation text.
+func SplitCases(spec interface{ GetAttr(string) string }) int {
+	sp := spec.GetAttr("split")
+	if sp == "" {
+		return 1
+	}
+	return len(strings.Fields(sp)) - 1
 }
